@@ -161,7 +161,11 @@ package retry
 
 //@ func NewBackoffer
 //@   prop C20
-//@   ensures valid: result != nil && validB(result) && result.totalSleep == 0 && result.maxSleep == maxSleep
+//@   ensures valid: result != nil && validB(result) && result.totalSleep == 0 && result.maxSleep == maxSleep && result.ctx == ctx
+
+//@ func NewBackofferWithVars
+//@   prop C20
+//@   ensures valid: result != nil && validB(result) && result.totalSleep == 0 && result.ctx == ctx
 
 //@ func NewNoopBackoff
 //@   prop C20
